@@ -81,7 +81,7 @@ func runCase(cs caseC04) (log []consult, entries []int64, nres int, closed bool)
 	tr := vegeta.NewStaticTargeter(vegeta.Target{Method: "GET", URL: "http://verif.invalid/"})
 	p.t0 = time.Now()
 	res := atk.Attack(tr, p, time.Duration(cs.Du), "c04")
-	timeout := time.After(10 * time.Second)
+	timeout := time.After(90 * time.Second) // only reached when the attack really does not end
 	for {
 		select {
 		case _, ok := <-res:
@@ -218,7 +218,7 @@ func runC04(c *run.Ctx, s *kit.Summary) {
 				s.Violate(kit.Violation{Kind: kind, What: what, Input: cs, Expected: exp, Observed: obs})
 			}
 			if !closed {
-				viol("attack_does_not_end", "the results channel was not closed within 10s after the pacer script ended", "", "")
+				viol("attack_does_not_end", "the results channel was not closed within 90s after the pacer script ended", "", "")
 				return
 			}
 			// (a) hits argument is 0,1,2,…  (b) elapsed non-decreasing  (c) never consulted after the deadline
